@@ -18,7 +18,7 @@ from . import common
 
 env.import_redress()
 
-from redress import AsyncRetry, Budget, ErrorClass, Retry  # noqa: E402
+from redress import AsyncRetry, Budget, Classification, ErrorClass, Retry, RetryExhaustedError  # noqa: E402
 
 JOBS = {"quick": 4, "thorough": 16}
 G = 1.0 / 64.0
@@ -116,7 +116,14 @@ class Shared:
         self.policies = []
         for p in spec["policies"]:
             cls = AsyncRetry if p["async"] else Retry
-            self.policies.append(cls(classifier=lambda e: EC.TRANSIENT, strategy=(lambda d: (lambda c: d))(p["delay"]), budget=self.budget, max_attempts=p["max_attempts"], deadline_s=100000.0))
+            hint = p.get("hint", "bare")
+            klass = EC[p.get("klass", "TRANSIENT")]
+            if hint == "bare":
+                clf = (lambda k: (lambda e: k))(klass)
+            else:
+                clf = (lambda k, h: (lambda e: Classification(klass=k, retry_after_s=h)))(klass, None if hint == "none" else float(hint))
+            self.policies.append(cls(classifier=clf, result_classifier=(lambda c: (lambda r: c(r) if r == "bad" else None))(clf), strategy=(lambda d: (lambda c: d))(p["delay"]), budget=self.budget,
+                                     max_attempts=p["max_attempts"], deadline_s=100000.0, max_unknown_attempts=None))
 
     def metric(self, cid):
         def on_metric(event, attempt, sleep_s, tags):
@@ -134,11 +141,13 @@ def run_shared(ctx, spec, rng, viol):
         coros = {}
         nops = {}
 
-        def mk_op(cid, dur, is_async):
+        def mk_op(cid, dur, is_async, by_result=False):
             def body():
                 nops[cid] = nops.get(cid, 0) + 1
                 sh.log.append(("op", world.t, cid, nops[cid]))
                 world.t += dur
+                if by_result:
+                    return "bad"
                 raise RuntimeError("always failing")
 
             if is_async:
@@ -175,11 +184,11 @@ def run_shared(ctx, spec, rng, viol):
             if not is_async:
                 sh.cur = cid
                 try:
-                    pol.call(mk_op(cid, c["dur"], False), on_metric=sh.metric(cid), sleeper=mk_sleeper(cid, False))
-                except RuntimeError:
+                    pol.call(mk_op(cid, c["dur"], False, c.get("by_result", False)), on_metric=sh.metric(cid), sleeper=mk_sleeper(cid, False))
+                except (RuntimeError, RetryExhaustedError):
                     pass
             else:
-                pending.append((cid, pol.call(mk_op(cid, c["dur"], True), on_metric=sh.metric(cid), sleeper=mk_sleeper(cid, True))))
+                pending.append((cid, pol.call(mk_op(cid, c["dur"], True, c.get("by_result", False)), on_metric=sh.metric(cid), sleeper=mk_sleeper(cid, True))))
                 if len(pending) >= c.get("batch", 2):
                     drain(sh, pending, rng, sched, replay_sched)
                     pending = []
@@ -263,7 +272,7 @@ def drain(sh, pending, rng, sched, replay_sched):
             live[cid].send(None)
         except StopIteration:
             del live[cid]
-        except RuntimeError:
+        except (RuntimeError, RetryExhaustedError):
             del live[cid]
     sh.cur = None
 
@@ -272,8 +281,9 @@ def gen_shared(rng):
     mx = rng.randint(0, 5)
     w = rng.choice([1.0, 2.0, 10.0])
     npol = rng.randint(2, 4)
-    pols = [{"async": rng.random() < 0.5, "delay": rng.choice([0.0, G, w / 4, w / 2, w - G, w, w + G]), "max_attempts": rng.randint(2, 5)} for _ in range(npol)]
-    calls = [{"policy": rng.randrange(npol), "gap": rng.choice([0.0, 0.0, G, w / 2, w - G, w, w + G]), "dur": rng.choice([0.0, G, w / 4]), "batch": rng.randint(1, 3)} for _ in range(rng.randint(3, 10))]
+    pols = [{"async": rng.random() < 0.5, "delay": rng.choice([0.0, G, w / 4, w / 2, w - G, w, w + G]), "max_attempts": rng.randint(2, 5),
+             "hint": rng.choice(["bare", "bare", "none", "0.0", "0.5", "30.0"]), "klass": rng.choice(["TRANSIENT", "RATE_LIMIT", "SERVER_ERROR", "UNKNOWN", "CONCURRENCY"])} for _ in range(npol)]
+    calls = [{"policy": rng.randrange(npol), "gap": rng.choice([0.0, 0.0, G, w / 2, w - G, w, w + G]), "dur": rng.choice([0.0, G, w / 4]), "batch": rng.randint(1, 3), "by_result": rng.random() < 0.3} for _ in range(rng.randint(3, 10))]
     return {"max": mx, "window": w, "policies": pols, "calls": calls}
 
 
